@@ -1,8 +1,9 @@
-(* C12 — the mask-dataflow language.  An [expr] is an array program over ONE input image and ONE
-   mask; the translator tools/gen_maskflow_c12.py turns every listed function of filter.py /
-   cpmorphology.py / smooth.py (branch `mask is not None`) into such a term on every run
-   (Gen/MaskProgC12.v).  Arrays are total functions on Z*Z (reads beyond the array border are part
-   of each library symbol's declared locality).  Definitions only; proofs in Proofs/MaskFlowSound.v. *)
+(* C12 — the mask-dataflow language.  A program is a list of shared definitions plus a main term (a DAG:
+   [Ref k] names the k-th definition); a term is an array expression over ONE input image and ONE mask.  The
+   translator tools/gen_maskflow_c12.py turns every listed function of filter.py / cpmorphology.py / smooth.py
+   (branch `mask is not None`) into such a program on every run (Gen/MaskProgC12.v).  Arrays are total functions
+   on Z*Z (reads beyond the array border are part of each library symbol's declared locality).
+   Definitions only; proofs in Proofs/MaskFlowSound.v. *)
 From Coq Require Import ZArith List Bool.
 Import ListNotations.
 Open Scope Z_scope.
@@ -20,16 +21,19 @@ Inductive expr :=
 | MaskE                                 (* the mask argument *)
 | FalseC                                (* a falsy constant (False / 0) *)
 | Const (c : nat)                       (* any array or scalar that does not depend on the image *)
+| Ref (k : nat)                         (* the k-th shared definition of the program *)
 | Erode (r : nat) (m : expr)            (* binary_erosion(m, (2r+1)^2 ones, border_value=0) *)
 | ErodeP (r : nat) (m : expr)           (* punctured erosion: every pixel within r EXCEPT the centre *)
+| ErodeS (s : nat) (m : expr)           (* punctured erosion by the abstract structure (offset set) s *)
 | Pw (f : nat) (es : list expr)         (* pointwise library op / arithmetic / comparison *)
 | Loc (r : nat) (f : nat) (e : expr)    (* library op whose value at p reads e within distance r of p *)
+| LocS (s : nat) (f : nat) (e : expr)   (* library op whose value at p reads e at p and at p + d, d in structure s *)
 | Glob (f : nat) (es : list expr)       (* arbitrary pure library op (any dependence on its arguments) *)
 | Select (e1 m e2 : expr)               (* e1 where m is truthy, else e2 *)
 | MConv (k : nat) (e m : expr).         (* _filter.masked_convolution(e, m, kernel k), concrete semantics *)
 
 (* An interpretation of the library symbols together with their DECLARED behaviour (the trusted
-   interface): pointwise, local with a radius, or merely pure. *)
+   interface): pointwise, local with a radius, local with an abstract footprint, or merely pure. *)
 Record interp := {
   V : Type;
   truthy : V -> bool;
@@ -41,6 +45,9 @@ Record interp := {
   glob : nat -> list (px -> V) -> px -> V;
   erode : nat -> (px -> V) -> px -> V;
   erodep : nat -> (px -> V) -> px -> V;
+  sset : nat -> px -> bool;                         (* membership of an offset in structure s: ANY set *)
+  locs : nat -> nat -> (px -> V) -> px -> V;
+  erodes : nat -> (px -> V) -> px -> V;
   mcrad : nat -> nat;
   mcfold : nat -> list (px * V) -> V;
   truthy_false : truthy falsev = false;
@@ -52,7 +59,13 @@ Record interp := {
                     forall q, dist p q <= Z.of_nat r -> truthy (a q) = true;
   erodep_local : forall r a b p, (forall q, dist p q <= Z.of_nat r -> a q = b q) -> erodep r a p = erodep r b p;
   erodep_guarantee : forall r a p, truthy (erodep r a p) = true ->
-                    forall q, dist p q <= Z.of_nat r -> q <> p -> truthy (a q) = true }.
+                    forall q, dist p q <= Z.of_nat r -> q <> p -> truthy (a q) = true;
+  locs_local : forall s f a b p, a p = b p -> (forall d, sset s d = true -> a (padd p d) = b (padd p d)) ->
+                    locs s f a p = locs s f b p;
+  erodes_local : forall s a b p, a p = b p -> (forall d, sset s d = true -> a (padd p d) = b (padd p d)) ->
+                    erodes s a p = erodes s b p;
+  erodes_guarantee : forall s a p, truthy (erodes s a p) = true ->
+                    forall d, sset s d = true -> padd p d <> p -> truthy (a (padd p d)) = true }.
 
 Section Sem.
 Variable I : interp.
@@ -64,96 +77,156 @@ Notation image := (px -> V I).
 Definition mconv_terms (r : nat) (e m : image) (p : px) : list (px * V I) :=
   flat_map (fun d => if truthy I (m (padd p d)) then [(d, e (padd p d))] else []) (window r).
 
-Fixpoint eval (e : expr) (img : image) : image :=
+(* rho: the values of the shared definitions evaluated so far *)
+Fixpoint eval (rho : list image) (e : expr) (img : image) : image :=
   match e with
   | Img => img
   | MaskE => fun p => maskv I (mask p)
   | FalseC => fun _ => falsev I
   | Const c => constimg I c
-  | Erode r m => erode I r (eval m img)
-  | ErodeP r m => erodep I r (eval m img)
-  | Pw f es => fun p => pw I f (map (fun e' => eval e' img p) es)
-  | Loc r f e => loc I r f (eval e img)
-  | Glob f es => glob I f (map (fun e' => eval e' img) es)
-  | Select e1 m e2 => fun p => if truthy I (eval m img p) then eval e1 img p else eval e2 img p
+  | Ref k => nth k rho (fun _ => falsev I)
+  | Erode r m => erode I r (eval rho m img)
+  | ErodeP r m => erodep I r (eval rho m img)
+  | ErodeS s m => erodes I s (eval rho m img)
+  | Pw f es => fun p => pw I f (map (fun e' => eval rho e' img p) es)
+  | Loc r f e => loc I r f (eval rho e img)
+  | LocS s f e => locs I s f (eval rho e img)
+  | Glob f es => glob I f (map (fun e' => eval rho e' img) es)
+  | Select e1 m e2 => fun p => if truthy I (eval rho m img p) then eval rho e1 img p else eval rho e2 img p
   | MConv k e m => fun p =>
-      if truthy I (eval m img p)
-      then mcfold I k (mconv_terms (mcrad I k) (eval e img) (eval m img) p)
+      if truthy I (eval rho m img p)
+      then mcfold I k (mconv_terms (mcrad I k) (eval rho e img) (eval rho m img) p)
       else falsev I
+  end.
+
+(* a program: definitions evaluated in order, each may refer to the earlier ones *)
+Fixpoint evalp (rho : list image) (defs : list expr) (main : expr) (img : image) : image :=
+  match defs with
+  | [] => eval rho main img
+  | d :: ds => evalp (rho ++ [eval rho d img]) ds main img
   end.
 End Sem.
 
-(* radius lattice: None = clean (no dependence at all on pixels outside the mask); Some r = the
-   value at p is determined by the masked-in pixels together with the pixels within r of p *)
-Definition rad := option nat.
-Definition rmax (a b : rad) : rad :=
-  match a, b with None, x | x, None => x | Some x, Some y => Some (Nat.max x y) end.
-Definition rle (a : rad) (n : nat) : bool := match a with None => true | Some x => Nat.leb x n end.
-Definition radd (a : rad) (r : nat) : rad := match a with None => None | Some k => Some (k + r)%nat end.
+Definition prog := (list expr * expr)%type.
+Definition run (I : interp) (mask : px -> bool) (P : prog) (img : px -> V I) : px -> V I :=
+  evalp I mask [] (fst P) (snd P) img.
 
-(* guarantee of a selector: (g, punctured) = "m truthy at p  =>  every pixel within g of p
-   (except p itself when punctured) lies inside the mask" *)
-Definition gjoin (a b : option (nat * bool)) : option (nat * bool) :=
+(* dependence lattice.  None = clean (no dependence at all on pixels outside the mask); R k = the value at p is
+   determined by the masked-in pixels together with the pixels within k of p; S s = ... together with p itself and
+   the pixels p + d for d in the abstract structure s *)
+Inductive dep := R (k : nat) | S (s : nat).
+Definition rad := option dep.
+(* least upper bound where the lattice has one *)
+Definition rmax (a b : rad) : option rad :=
   match a, b with
-  | Some (g1, p1), Some (g2, p2) => Some (Nat.max g1 g2, p1 && p2)
+  | None, x => Some x
+  | x, None => Some x
+  | Some (R x), Some (R y) => Some (Some (R (Nat.max x y)))
+  | Some (S s), Some (S t) => if Nat.eqb s t then Some a else None
+  | Some (S _), Some (R k) => match k with O => Some a | _ => None end
+  | Some (R k), Some (S _) => match k with O => Some b | _ => None end
+  end.
+Definition radd (a : rad) (r : nat) : option rad :=
+  match a with None => Some None | Some (R k) => Some (Some (R (k + r)%nat)) | Some (S _) => None end.
+Definition rstruct (a : rad) (s : nat) : option rad :=
+  match a with None => Some None | Some (R O) => Some (Some (S s)) | _ => None end.
+Definition rle0 (a : rad) : bool := match a with None => true | Some (R O) => true | _ => false end.
+
+(* guarantee of a selector.  GR g pu: "m truthy at p => every pixel within g of p (except p itself when pu) lies
+   inside the mask"; GS s pu: "... => every p + d, d in s, other than p lies inside the mask (and p itself unless pu)" *)
+Inductive ginfo := GR (g : nat) (pu : bool) | GS (s : nat) (pu : bool).
+Definition gjoin (a b : option ginfo) : option ginfo :=
+  match a, b with
+  | Some (GR g1 p1), Some (GR g2 p2) => Some (GR (Nat.max g1 g2) (p1 && p2))
+  | Some (GS s p1), Some (GS _ p2) => Some (GS s (p1 && p2))
+  | Some (GS s p1), Some (GR _ p2) | Some (GR _ p2), Some (GS s p1) => Some (GS s (p1 && p2))
   | Some x, None | None, Some x => Some x
   | None, None => None
   end.
-Fixpoint guar (m : expr) : option (nat * bool) :=
+
+(* what the checker knows about the shared definitions: their dependence and their guarantee *)
+Definition cenv := list (rad * option ginfo).
+
+Fixpoint guar (G : cenv) (m : expr) : option ginfo :=
   match m with
-  | MaskE => Some (0%nat, false)
-  | Erode r m' => match guar m' with Some (g, false) => Some ((g + r)%nat, false) | _ => None end
-  | ErodeP r m' => match guar m' with Some (O, false) => Some (r, true) | _ => None end
-  | Select m2 m1 FalseC => gjoin (guar m1) (guar m2)       (* logical_and(m1, m2) *)
+  | MaskE => Some (GR 0%nat false)
+  | Ref k => match nth_error G k with Some (_, g) => g | None => None end
+  | Erode r m' => match guar G m' with Some (GR g false) => Some (GR (g + r)%nat false) | _ => None end
+  | ErodeP r m' => match guar G m' with Some (GR O false) => Some (GR r true) | _ => None end
+  | ErodeS s m' => match guar G m' with Some (GR O false) => Some (GS s true) | _ => None end
+  | Select m2 m1 FalseC => gjoin (guar G m1) (guar G m2)       (* logical_and(m1, m2) *)
   | _ => None
   end.
 
-Definition is_clean (o : option rad) : bool := match o with Some None => true | _ => false end.
+(* what remains of the dependence [a] of e1 in `e1 where m` when m carries the guarantee g *)
+Definition discount (a : rad) (g : option ginfo) : rad :=
+  match a with
+  | None => None
+  | Some (R k) =>
+      match g with
+      | Some (GR gg pu) => if Nat.leb k gg then (if pu then Some (R 0%nat) else None) else a
+      | Some (GS _ pu) => match k with O => if pu then a else None | _ => a end
+      | None => a
+      end
+  | Some (S s) =>
+      match g with
+      | Some (GS t pu) => if Nat.eqb s t then (if pu then Some (R 0%nat) else None) else a
+      | _ => a
+      end
+  end.
 
-(* the checker: Some r = depends on img outside the mask only within radius r; None = REJECT *)
-Fixpoint rb (e : expr) : option rad :=
+Definition is_clean (o : option rad) : bool := match o with Some None => true | _ => false end.
+Definition bind2 (a b : option rad) : option rad :=
+  match a, b with Some x, Some y => rmax x y | _, _ => None end.
+
+(* the checker: Some r = dependence r on img outside the mask; None = REJECT *)
+Fixpoint rb (G : cenv) (e : expr) : option rad :=
   match e with
-  | Img => Some (Some 0%nat)
+  | Img => Some (Some (R 0%nat))
   | MaskE | FalseC | Const _ => Some None
-  | Erode r m | ErodeP r m | Loc r _ m => match rb m with Some a => Some (radd a r) | None => None end
-  | Pw _ es =>
-      fold_right (fun e' acc => match rb e', acc with Some a, Some b => Some (rmax a b) | _, _ => None end)
-                 (Some None) es
-  | Glob _ es => if forallb (fun e' => is_clean (rb e')) es then Some None else None
+  | Ref k => match nth_error G k with Some (r, _) => Some r | None => None end
+  | Erode r m | ErodeP r m | Loc r _ m => match rb G m with Some a => radd a r | None => None end
+  | ErodeS s m | LocS s _ m => match rb G m with Some a => rstruct a s | None => None end
+  | Pw _ es => fold_right (fun e' acc => bind2 (rb G e') acc) (Some None) es
+  | Glob _ es => if forallb (fun e' => is_clean (rb G e')) es then Some None else None
   | Select e1 m e2 =>
-      match rb e1, rb m, rb e2 with
-      | Some a, Some b, Some c =>
-          let a' := match guar m with
-                    | Some (g, punct) =>
-                        if rle a g then (if punct then (match a with None => None | Some _ => Some 0%nat end) else None)
-                        else a
-                    | None => a end in
-          Some (rmax a' (rmax b c))
-      | _, _, _ => None
+      match rb G e1 with
+      | Some a => bind2 (Some (discount a (guar G m))) (bind2 (rb G m) (rb G e2))
+      | None => None
       end
   | MConv _ e m =>
-      match rb e, rb m, guar m with
-      | Some a, Some None, Some (g, false) => if rle a g then Some None else None
+      match rb G e, rb G m, guar G m with
+      | Some None, Some None, Some (GR _ false) => Some None
+      | Some (Some (R k)), Some None, Some (GR g false) => if Nat.leb k g then Some None else None
       | _, _, _ => None
       end
+  end.
+
+(* a program: every definition is checked in the environment of the earlier ones *)
+Fixpoint rbp (G : cenv) (defs : list expr) (main : expr) : option rad :=
+  match defs with
+  | [] => rb G main
+  | d :: ds => match rb G d with Some r => rbp (G ++ [(r, guar G d)]) ds main | None => None end
   end.
 
 (* accepted = non-interfering inside the mask *)
-Definition accepts (e : expr) : bool := match rb e with Some r => rle r 0 | None => false end.
-(* the last write on every path is `result[~mask] = image[~mask]` (or the path returns the image itself);
-   paths are joined by Select on a branch condition *)
-Fixpoint restores_outside (e : expr) : bool :=
+Definition accepts (P : prog) : bool := match rbp [] (fst P) (snd P) with Some r => rle0 r | None => false end.
+
+(* the last write on every path of the main term is `result[~mask] = image[~mask]` (or the path returns the image
+   itself); paths are joined by Select on a branch condition *)
+Fixpoint restores_main (e : expr) : bool :=
   match e with
   | Img => true
   | Select e1 m e2 =>
-      (match m, e2 with MaskE, Img => true | _, _ => false end) || (restores_outside e1 && restores_outside e2)
+      (match m, e2 with MaskE, Img => true | _, _ => false end) || (restores_main e1 && restores_main e2)
   | _ => false
   end.
+Definition restores_outside (P : prog) : bool := restores_main (snd P).
 
 (* the two properties of C12, for EVERY admissible interpretation of the library symbols *)
-Definition noninterfering (e : expr) : Prop :=
+Definition noninterfering (P : prog) : Prop :=
   forall (I : interp) (mask : px -> bool) (a b : px -> V I),
     (forall q, mask q = true -> a q = b q) ->
-    forall p, mask p = true -> eval I mask e a p = eval I mask e b p.
-Definition restoring (e : expr) : Prop :=
-  forall (I : interp) (mask : px -> bool) (img : px -> V I) p, mask p = false -> eval I mask e img p = img p.
+    forall p, mask p = true -> run I mask P a p = run I mask P b p.
+Definition restoring (P : prog) : Prop :=
+  forall (I : interp) (mask : px -> bool) (img : px -> V I) p, mask p = false -> run I mask P img p = img p.
